@@ -5,9 +5,9 @@ ENTRY = dict(
         title="Cut finding is reproducible under a seed and independent of call history",
         prop_file="Properties/C09.v",
         corr_files=["Corr/C09Corr.v"],
-        theorems=["c09_registry_yields_search_actions", "c09_seeded_search_model", "c09_search_model_any_tape",
+        theorems=["c09_registry_yields_search_actions", "c09_seeded_search_model", "c09_seeded_search_model_total", "c09_search_model_any_tape",
                   "c09_seeded_same_everywhere", "c09_import_state_reachable", "c09_smallest_probability_nonneg",
-                  "c09_inf_is_exact", "c09_finite_exact_threshold", "c09_invalid_num_samples_exact",
+                  "c09_inf_is_exact", "c09_finite_exact_margin_partial", "c09_invalid_num_samples_refused_no_sampling",
                   "c09_greedy_writes_identity", "c09_registries_invariant", "c09_registries_invariant_history",
                   "c09_rng_untouched", "c09_state_untouched", "c09_state_untouched_history", "c09_py_never_written",
                   "c09_np_only_writer", "c09_history_independent", "c09_rng_independent", "c09_seeded",
@@ -22,28 +22,36 @@ ENTRY = dict(
                "c09_anonymous_registers"],
         harness="c09",
         harness_timeout=3000,
-        level_text="Unbounded theorems (all histories of any length, all states of the global generators, all arguments) about an explicit "
-                   "process-state model: the package's four process-global registries and numpy's/Python's global generators as state, "
-                   "find_cuts / generate_cutting_experiments / QPDBasis.from_instruction as a transition function that performs the reads and "
-                   "writes found in the source. Proved: registries invariant under every call and history; global generators untouched by the "
-                   "three call classes, where the generation class is `does not reach the sampler`: num_samples = inf always, finite num_samples >= "
-                   "1/smallest probability, and refused num_samples < 1 (numpy's state moves only in a generation that reaches the sampler); results independent of "
-                   "history, of the generator states and of the interpreter; closed form of the seeded result; and, with the executable cut-finder model of C07/C08 "
-                   "plugged in for find_cuts (action list read from the process registry, tape = function of the seed): in every state reachable from import the seeded "
-                   "result IS that search model's output. Closed under the global context. "
-                   "The model's write-set is tied to /repo by 15 regenerated AST facts over the whole package (globals, every write to them or "
-                   "through a parameter, every RNG use, every history source) and by running >250 real calls per run in separate interpreters.",
-        level_note=STD_NOTE + "No axioms. The theorems are about the PROCESS MODEL (Model/Process.v), not about CPython: what the three calls "
-                   "compute from their inputs is abstract (record `oracles`, fields are functions), so the proved content is exactly that only the "
-                   "listed inputs (filtered registry copy, function table, decomposition-registry keys, arguments, seeded tape) can influence a "
-                   "result and that no call leaves a trace in the process state. That the real code reads and writes nothing else rests on "
-                   "(i) the facts obligations in Properties/C09.v (static, whole package, fail-closed: a new module global, a new write to one or "
-                   "through an aliased parameter / a local aliasing a global / a function or class attribute / a two-level self chain in cut_finding, "
-                   "a new np.random/random/uuid/time/id/hash use breaks a proof obligation) and (ii) the history "
-                   "correspondence (dynamic: fingerprints of the real registries, object identities, both generator states and canonical results "
-                   "after every call of 36+ histories per run, each also against a fresh interpreter; PYTHONHASHSEED is drawn per interpreter for one "
-                   "history variant and half of the fresh interpreters, and one variant passes the same argument objects again). State inside Qiskit/numpy/rustworkx "
-                   "(e.g. Qiskit's counter that names anonymous registers) is outside the model.",
+        level_text="Unbounded theorems about an explicit process-state model (Model/Process.v): the package's four process-global registries and "
+                   "numpy's/Python's global generators as state; find_cuts / generate_cutting_experiments / QPDBasis.from_instruction as a transition "
+                   "function `step` that performs the reads and writes found in the source. What is proved, by kind: "
+                   "(1) 14 SHAPE COROLLARIES (registries_invariant(_history), rng_untouched, state_untouched(_history), py_never_written, np_only_writer, "
+                   "history_independent, rng_independent, fresh_interpreter, seeded, gen_exact_pure, gen_finite_exact_pure, from_instruction_pure) are `step` "
+                   "unfolded plus greedy_writes = identity: they hold because of how the model hands its inputs to the (abstract) result functions, and say that "
+                   "nothing else of the state reaches a result and nothing is left behind; "
+                   "(2) sampler classification with content: num_samples = inf never reaches the sampler (smallest probability >= 0 is proved from the modelled "
+                   "|coeffs|/kappa, min-nonzero, product), num_samples < 1 is refused without sampling, and a finite num_samples is certainly all-exact when the exact "
+                   "smallest probability exceeds 1/num_samples by the relative margin 2^-40 (PARTIAL: inside the margin and below, the float comparison of the "
+                   "code decides and the model makes no claim; five cx bases at num_samples = 7776 sit on the boundary and the real code samples); "
+                   "(3) registry mechanics (copy never asserts on a well-formed registry, the import registry is well formed, the copy's TwoQubitGates group is "
+                   "the action list C07's search model hard-codes); "
+                   "(4) the cut finder made concrete: with C07/C08's executable search model as find_cuts, in every state reachable from import the seeded result "
+                   "IS that model's output on the tape of the seed, and with C07's fuel bound it is a real outcome (c09_seeded_search_model_total). "
+                   "Closed under the global context. The model's write-set is tied to /repo by 14 regenerated AST fact lists over the whole package and by "
+                   "running >400 real calls per run in separate interpreters; the threshold model is tied by the weights stream (branch taken and movement of "
+                   "numpy's state of generate_qpd_weights on real coefficients, incl. the float boundary) and by feeding the real coefficient lists of every "
+                   "generation call of the histories into reaches_sampler.",
+        level_note=STD_NOTE + "No axioms. The theorems are about the PROCESS MODEL, not about CPython: what generation and from_instruction compute is abstract "
+                   "(record `oracles`, fields are functions); only the cut finder is an executable model (C07's, whose own tie to /repo is C07's correspondence). "
+                   "That the real code reads and writes nothing else rests on (i) the facts obligations in Properties/C09.v (static, whole package, fail-closed: a new "
+                   "module global, a new write to one or through an aliased parameter / a local aliasing a global / a function or class attribute / a two-level self chain "
+                   "in cut_finding, a new np.random/random/uuid/time/id/hash use breaks a proof obligation) and (ii) the history correspondence (dynamic: fingerprints of "
+                   "the real registries, object identities, both generator states and canonical results after every call of 36+ histories per run, each also against a "
+                   "fresh interpreter; PYTHONHASHSEED drawn per interpreter for one history variant and half of the fresh interpreters; one variant passes the same argument "
+                   "objects again). Passing the same argument objects twice (argument mutation) has no theorem: arguments are immutable values in the model. State inside "
+                   "Qiskit/numpy/rustworkx (e.g. Qiskit's counter that names anonymous registers) is outside the model. Remaining hypotheses: exact_class c (input "
+                   "restriction: the property speaks about these calls), import_state / wf_registry (precondition, discharged for the import-time state and preserved by "
+                   "every history), circ_wf + fuel bound (precondition of the totality corollary), the 2^-40 margin (input restriction of the partial threshold theorem).",
         assumptions=[
             "Model/Process.v is a hand-written model of the process-global state of qiskit_addon_cutting and of the reads/writes of it performed by "
             "find_cuts, generate_cutting_experiments and QPDBasis.from_instruction; ActionNames.define_action/copy/get_action_subset and "
@@ -51,6 +59,11 @@ ENTRY = dict(
             "O-rng: numpy.random.default_rng(seed) with an integer seed yields a stream that is a function of the seed and does not involve the global "
             "RandomState (monitored on every seeded find_cuts call, in every interpreter)",
             "typing.cast(T, x) returns x (monitored)",
+            "floating point: the code decides `np.prod(min probabilities) >= 1/num_samples` in binary64; the model decides in exact rationals with a relative "
+            "safety margin 2^-40 and claims nothing inside it. ASSUMED: the binary64 evaluation of the product (k <= ~10^3 factors, each a rounded quotient) and of the "
+            "reciprocal errs by less than 2^-41 relative each; tied (not proved) by the weights stream, which drives generate_qpd_weights at the exact boundary, one ulp "
+            "and 1e-9 around it. A basis whose coefficients are all zero (kappa = 0: Python computes nan and fails with OverflowError/ValueError) is modelled as refused; "
+            "no gate has such a basis",
             "QPDBasis.probabilities = |coeffs| / sum|coeffs| and _min_filter_nonzero / np.prod are modelled (Process.probabilities, min_filter_nonzero, "
             "prod_min_nonzero) in exact rationals; that the smallest probability is >= 0 is now a theorem (c09_smallest_probability_nonneg), no longer a "
             "hypothesis; the formula probabilities == |coeffs|/kappa is monitored on every generation case",
@@ -58,7 +71,8 @@ ENTRY = dict(
             "with the action list read from the fresh copy of the process registry; c09_seeded_search_model etc. are therefore statements about that search "
             "model, whose own tie to /repo is C07's correspondence (tape recorded from default_rng); C09 adds the group stream (get_group('TwoQubitGates') of "
             "real filtered copies vs two_qubit_group and vs the list the search model hard-codes). A function table that does not hold the five import-time "
-            "functions, or an action name unknown to the search model, is outside this instance (value None); unreachable from import by c09_import_state_reachable",
+            "functions, or an action name unknown to the search model, is outside this instance (value None; a copy WITHOUT the TwoQubitGates group is modelled: AssertionError = Crashed as soon as a gate is expanded); "
+            "unreachable from import by c09_import_state_reachable",
             "with num_samples = inf, threshold = 1/inf = 0.0 and `smallest_probability >= threshold` holds, so _generate_qpd_weights returns from the "
             "all-exact branch before _populate_samples (the only np.random.choice site); modelled in reaches_sampler, observed on every generation call",
             "function objects and action objects are modelled by their names; object identity (`is`) of every registry member, of both tables' slots and "
